@@ -3,17 +3,25 @@
    web.Application through the segmenting relay of engine/wirekit.py (one exchange on a fresh
    connection, then quiescence, then one probe request on the same session).
 
-   One execution = seven events, in this order (each carries only observables):
+   One execution = these events, in this order (each carries only observables):
      issue      the request as issued through the public client API (the only event if the API refused the
                 arguments with ValueError)
      early      only if no final response head ever reached the wire: who is waiting
-     reqwire    what the client put on the wire (independent splitter; arithmetic re-checked here)
-     handler    the request as seen by the web handler
-     returned   the response object the handler returned (public attributes)
-     respwire   what the server put on the wire
+     reqwire    what the client put on the wire (independent splitter; arithmetic re-checked here); attempt > 0:
+                the exchange was retried on a further connection (this is the last attempt's wire)
+     handler    the request as seen by the web handler (rejected: the route's expect handler answered instead;
+                bodyRead: the handler read the body)
+     returned   the response object the handler returned (public attributes)      | or, if the caller was cancelled
+     respwire   what the server put on the wire                                    | (req.abort): one event `aborted`
      quiesce    after the loop ran dry (timers <= 30 virtual s fired): who finished, who closed
-                the transport on its own decision, did the probe request need a new connection
+                the transport on its own decision, did the probe request need a new connection, was it answered with
+                its own response, are the header containers the application handed in unchanged
      caller     the response as seen by the caller of ClientSession.request()
+
+   Scenario dimensions of the driver (props/C02.py): connection history (fresh / reused / stale: the server has closed
+   the pooled connection, the client retries), a handler that answers without reading the body, slow (streamed) request
+   bodies, routes whose expect handler rejects or stays silent, cancellation of the caller before the head / inside the
+   body, an on_response_prepare handler that raises, header containers shared between messages.
 
    PROPERTY clauses use only those observables and the oracle Rfc9112BodyLength /
    Rfc9112ReqBodyLength applied to the fields observed on the wire.  Body equality "after
@@ -33,6 +41,13 @@
      ConnectClosedByServer / ConnectPooledByClient          CloseAgree   CONNECT
      Http10TransferEncoding             FramingTruthful     Transfer-Encoding on an HTTP/1.0 request
      Expect100NeverAnswered             NoHang              HTTP/1.0 + Expect: 100-continue: both ends wait
+     WithheldBodyConnectionReused       UnfinishedNeverReused   Expect: 100-continue answered by a final response: body never
+                                                            sent, connection pooled by the client
+     ErrorPageAfterFailedPrepare        FramingTruthful     on_response_prepare raised: 500 page through the stale writer
+     HostDroppedOnRetry                 RetrySameRequest    the retry on a new connection lost the caller's Host header
+   General clauses added with the scenario dimensions: UnfinishedBodyConnectionReused, UnfinishedBodyServerKeepsConnection,
+   UnfinishedBodyDelivered, CancelledExchangeConnectionReused, NextRequestAnsweredWithForeignResponse,
+   CallerHeadersMutated, HandlerHeadersMutated.
      ErrorPageThroughStaleWriter        FramingTruthful     prepare() raised after enabling compression: the 500 page is compressed
                                                             behind a Content-Length of the plain text
 
